@@ -503,4 +503,104 @@ theorem pomdp_copy_valid (kb ko : Rep) (m : Src) (O : Nat) (om : Tab3) (s : St)
         | dense => exact this
         | sparse => exact rowT_of_RowS .sparse this
 
+/-! ## conversions never reject spuriously: exact acceptance conditions -/
+
+/-- **`MDP::Model(const M&)` accepts exactly the valid sources**: discount in (0,1] and every row read through
+    getTransitionProbability finite, non-negative and within the tolerance of one — and nothing else -/
+theorem copyDense_accepts_iff (m : Src) :
+    (copyDense m).isSome = true ↔ DiscOK m.disc ∧ ∀ a < m.A, ∀ x < m.S, RowS (srcRow m x a) := by
+  unfold copyDense
+  by_cases hg : (discGuard .dense).eval m.disc = true
+  · have hnd : ¬ DiscOK m.disc := fun hd => by
+      have := (discGuard_iff .dense m.disc).2 hd; rw [this] at hg; cases hg
+    simp [hg, hnd]
+  · have hg' : (discGuard .dense).eval m.disc = false := by simpa using hg
+    have hd : DiscOK m.disc := (discGuard_iff .dense _).1 hg'
+    simp only [hg', Bool.false_eq_true, if_false]
+    by_cases hall : ((List.range m.A).all fun a => (List.range m.S).all fun s => isProbLoop (srcRow m s a)) = true
+    · simp only [hall, if_true, Option.isSome_some, true_iff]
+      simp only [List.all_eq_true, List.mem_range] at hall
+      exact ⟨hd, fun a ha x hx => (isProbLoop_iff _).1 (hall a ha x hx)⟩
+    · simp only [hall, Bool.false_eq_true, if_false, Option.isSome_none, false_iff, not_and]
+      intro _ hrows
+      apply hall
+      simp only [List.all_eq_true, List.mem_range]
+      exact fun a ha x hx => (isProbLoop_iff _).2 (hrows a ha x hx)
+
+/-- OBLIGATION over the generated table: the per-entry guard of the sparse converting constructor rejects no
+    finite value in [0,1] -/
+theorem sparseEntryGuard_complete :
+    Cls.all.all (fun c => !(c == .zero || c == .mid || c == .one) || !(sparseEntryGuard.eval c.rep)) = true := by
+  decide +kernel
+
+theorem entryGuard_accepts_unit (q : Rat) (h0 : 0 ≤ q) (h1 : q ≤ 1) : sparseEntryGuard.eval (.fin q) = false := by
+  have hall := sparseEntryGuard_complete
+  rw [List.all_eq_true] at hall
+  have := hall (cls (.fin q)) (mem_all _)
+  rw [← eval_rep sparseEntryGuard sparseEntryGuard_ok.1] at this
+  have hc : (cls (.fin q) == Cls.zero || cls (.fin q) == Cls.mid || cls (.fin q) == Cls.one) = true := by
+    simp only [cls]
+    split_ifs with a b c d
+    · exact absurd a (not_lt.2 h0)
+    · rfl
+    · rfl
+    · rfl
+    · exfalso; rcases lt_or_eq_of_le h1 with h | h
+      · exact c h
+      · exact d h
+  simpa [hc] using this
+
+/-- **`MDP::SparseModel(const M&)` accepts exactly** the sources with a discount in (0,1], entries that are finite
+    numbers in [0,1], and rows that — AS STORED, i.e. after the entries ≤ 1e-6 are dropped — are within the tolerance
+    of one.  (So a valid dense row is rejected precisely when its dropped mass pushes the stored sum out of tolerance.) -/
+theorem copySparse_accepts_iff (m : Src) :
+    (copySparse m).isSome = true ↔
+      DiscOK m.disc ∧ ∀ x < m.S, ∀ a < m.A,
+        (∀ p ∈ srcRow m x a, ∃ q, p = .fin q ∧ 0 ≤ q ∧ q ≤ 1) ∧ RowS ((srcRow m x a).map sparsify) := by
+  unfold copySparse
+  by_cases hg : (discGuard .sparse).eval m.disc = true
+  · have hnd : ¬ DiscOK m.disc := fun hd => by
+      have := (discGuard_iff .sparse m.disc).2 hd; rw [this] at hg; cases hg
+    simp [hg, hnd]
+  · have hg' : (discGuard .sparse).eval m.disc = false := by simpa using hg
+    have hd : DiscOK m.disc := (discGuard_iff .sparse _).1 hg'
+    simp only [hg', Bool.false_eq_true, if_false]
+    constructor
+    · intro hsome
+      split at hsome
+      · rename_i hall
+        simp only [List.all_eq_true, List.mem_range, Bool.and_eq_true] at hall
+        refine ⟨hd, fun x hx a ha => ?_⟩
+        obtain ⟨h1, h2⟩ := hall x hx a ha
+        have hrow := sparse_copy_row sparseEntryGuard sparseEntryGuard_ok.1 sparseEntryGuard_ok.2.2.1 (srcRow m x a)
+          (by rw [List.all_eq_true]; exact h1) (by simpa using h2)
+        refine ⟨?_, hrow⟩
+        intro p hp
+        -- the stored row is finite, hence so is every entry read; the entry guard then bounds it
+        obtain ⟨qs, hq, _⟩ := hrow
+        have hmem : sparsify p ∈ (srcRow m x a).map sparsify := List.mem_map.2 ⟨p, hp, rfl⟩
+        rw [hq] at hmem
+        obtain ⟨q', _, hq'⟩ := List.mem_map.1 hmem
+        obtain ⟨q, rfl, _⟩ := sparsify_eq_fin p q' hq'.symm
+        have hb := entryGuard_fin sparseEntryGuard sparseEntryGuard_ok.1 sparseEntryGuard_ok.2.2.1 q
+          (by simpa using h1 _ hp)
+        exact ⟨q, rfl, hb.1, hb.2⟩
+      · cases hsome
+    · rintro ⟨_, hrows⟩
+      have hall : ((List.range m.S).all fun s => (List.range m.A).all fun a =>
+            (srcRow m s a).all (fun p => !(sparseEntryGuard.eval p)) &&
+            !(diffSmall (.fin 1) (sumX ((srcRow m s a).map sparsify)))) = true := by
+        simp only [List.all_eq_true, List.mem_range, Bool.and_eq_true]
+        intro x hx a ha
+        obtain ⟨hent, qs, hq, _, h1, h2⟩ := hrows x hx a ha
+        refine ⟨?_, ?_⟩
+        · intro p hp
+          obtain ⟨q, rfl, h0, h1'⟩ := hent p hp
+          simp [entryGuard_accepts_unit q h0 h1']
+        · rw [hq, sumX_fin]
+          have : eqSmall (.fin 1) (.fin (sumQ qs)) = true :=
+            (eqSmall_one_left_iff _).2 ⟨sumQ qs, rfl, by linarith, by linarith⟩
+          simp [diffSmall, this]
+      simp only [hall, if_true, Option.isSome_some]
+
 end AITB.MS
